@@ -345,10 +345,18 @@ func runC11(c *Ctx) {
 	if closeFn == nil {
 		c.Bad(r5, "close-fn", "", "PCLog.Close not found")
 	} else {
+		// the steps are performed by Close itself or by the function it hands to sync.Once.Do
 		var body *ssa.Function = closeFn
-		for _, an := range closeFn.AnonFuncs {
-			body = an
-		}
+		onceDo := p.ExtFunc("sync", "Once", "Do")
+		AllInstrs(closeFn, func(in ssa.Instruction) {
+			if call, ok := in.(*ssa.Call); ok && sameFunc(CalleeObj(&call.Call), onceDo) && len(call.Call.Args) == 2 {
+				if fns, _ := p.FuncValues(call.Call.Args[1]); len(fns) == 1 {
+					if u := p.unwrap(fns[0]); u != nil && len(u.Blocks) > 0 {
+						body = u
+					}
+				}
+			}
+		})
 		c.Touch(body)
 		fChan := p.Field("pclog", "PCLog", "logEventChan")
 		fWriter := p.Field("pclog", "PCLog", "writer")
